@@ -292,7 +292,7 @@ def object_of(st, e):
             e = st.env.get(e[1])
         elif e[0] == 'via':
             e = e[2]
-        elif e[0] in ('ref', 'deref'):
+        elif e[0] in ('ref', 'deref', 'refm'):
             e = e[1]
         elif e[0] == 'field' and e[1][0] == 'variant' and e[1][2] in ('Continue', 'Ok', 'Some'):
             e = e[1][1]
